@@ -54,6 +54,11 @@ class C15(Prop):
                 "fail_update": plan,
                 "fail_event": plan,
                 "ties": st.lists(st.integers(0, 7), max_size=4),
+                # an extra external event (one no step accepts) sent through the service at a generated instant, typically the very
+                # instant the run ends; its delivery runs in a fire-and-forget task and may land after the terminal write
+                "extra": st.sampled_from([None, None, ["end", 0], ["end", 0], ["end", -0.5], ["at", 0], ["at", 1], ["at", 2.5]]),
+                # a store with real I/O suspends inside its calls: generated numbers of event-loop yields before each store call
+                "yields": st.sampled_from([[], [], [1], [0, 2], [2, 0, 1], [1, 3], [3, 1, 0, 2], [5, 0]]),
             }
         )
 
@@ -132,7 +137,7 @@ class C15(Prop):
             tmp = srv.tmp_root() if case["store"] == "sqlite" else None
             try:
                 real = srv.make_store(case["store"], tmp)
-                proxy = srv.StoreProxy(real, fail_plan={"update_handler_status": case["fail_status"], "update": case["fail_update"], "append_event": case["fail_event"]})
+                proxy = srv.StoreProxy(real, fail_plan={"update_handler_status": case["fail_status"], "update": case["fail_update"], "append_event": case["fail_event"]}, yields=case.get("yields") or None)
                 ends = [case["end"]] + ([case["again"]] if case["again"] else [])
                 for n, end in enumerate(ends):
                     log["n"] = n
@@ -148,6 +153,20 @@ class C15(Prop):
                     info["run_id"] = hd.run_id
                     inner = None
                     t0 = VClock.t
+                    extra = case.get("extra")
+                    if extra and n == 0:
+                        nominal_end = case["d1"] + case["d2"]
+                        at = max(0.0, nominal_end + extra[1]) if extra[0] == "end" else extra[1]
+
+                        async def send_extra(at=at, life=life, info=info):
+                            await asyncio.sleep(at)
+                            try:
+                                await life.server._service.send_event("h1", ge.E5(extra=True))
+                                info["extra_sent_at"] = VClock.t - t0
+                            except Exception as e:  # noqa: BLE001  (handler already terminal: rejected, fine)
+                                info["extra_rejected"] = repr(e)[:100]
+
+                        info["extra_task"] = asyncio.create_task(send_extra())
                     if end == "cancel":
                         await asyncio.sleep(case["cancel_at"])
                         info["cancel_at"] = VClock.t - t0
@@ -176,6 +195,11 @@ class C15(Prop):
                     else:
                         info["truth"] = "no_queues"
                     await asyncio.sleep(30)  # well beyond the write backoffs
+                    xt = info.pop("extra_task", None)
+                    if xt is not None:
+                        await asyncio.wait({xt}, timeout=5)
+                        if not xt.done():
+                            xt.cancel()
                     row = await srv.handler_row(real, "h1")
                     info["row"] = {"status": row.status if row else None, "result": srv.result_of(row), "error": row.error if row else None, "run_id": row.run_id if row else None}
                     await srv.kill_life(life)
@@ -231,6 +255,10 @@ class C15(Prop):
             r.classes.append("injected_write_failure")
         if case["again"]:
             r.classes.append("second_run_same_handler")
+        if any("extra_sent_at" in i for i in obs["runs"]):
+            r.classes.append("extra_event_accepted")
+            if any("extra_sent_at" in i and i.get("ended_at") is not None and abs(i["extra_sent_at"] - i["ended_at"]) < 1e-6 for i in obs["runs"]):
+                r.classes.append("extra_event_at_end_instant" + ("_suspending_store" if case.get("yields") else ""))
         r.nontrivial = case["end"] != "ok" or inj > 0
         r.sample = {"case": case, "runs": [{k: v for k, v in i.items() if k in ("end", "truth", "row", "ended_at", "cancel_at")} for i in obs["runs"]], "injected": inj}
         return r
